@@ -1,5 +1,37 @@
 package c08
 
+// c08_test.go: the units of property C08.
+//
+//	oracle-selftest   frozen (pattern, subject, V8 verdict) table replayed against the reference matcher
+//	exhaustive        every AST up to a size bound x every subject up to a length bound
+//	random            rapid ASTs up to size ~12 x sampled/mutated/random subjects
+//	unicode-property  \p{..} / \P{..} planted in small contexts (separately labelled family)
+//	fallback-family   look-around, back-references, named groups: engine choice and String()
+//
+// Verdict rule. ogen's verdict is compared only when Compile returned the
+// RE2-backed engine. An alarm needs TWO agreeing independent oracles against
+// ogen: the reference matcher (ref.go) and regexp2 compiled directly with
+// ECMAScript|Unicode; where regexp2 sides with ogen (it deviates from ECMA-262
+// on dot/U+2028, Unicode \b, surrogate-pair escapes, "[:" in classes) the
+// frozen V8 verdict for that exact (pattern, subject) is the second oracle;
+// without one the pair is counted as undecided (and, for the evidence, split
+// into "reproduced by a known-defect model" and "UNEXPLAINED").
+//
+// Deviations from DESIGN.md §C08 (for its changelog):
+//   - a named group without back-reference is expressible on RE2: either engine
+//     is admitted, verdicts are compared when RE2 (the design demanded regexp2);
+//   - node is never used at run time (no third live oracle in the thorough
+//     tier); the frozen table doubles as tie-breaking oracle instead;
+//   - V8's plain .test() is not used for the table (zero-width matches inside a
+//     surrogate pair), see tools/v8eval.js;
+//   - subjects additionally include short strings over the code points a
+//     pattern names, otherwise escapes of syntax characters, \t, \f, \0, \cA,
+//     [\b] could never match anything in the fixed alphabet;
+//   - surrogate-pair escapes and POSIX-bracket lookalike classes were added to
+//     the grammar (both valid `u`-mode syntax; both turned out to be defects);
+//   - size-4 ASTs meet subjects of length <= 2 (plus a seed-dependent eighth of
+//     them length <= 3) to stay inside the time budget.
+
 import (
 	"bufio"
 	"compress/gzip"
@@ -38,6 +70,7 @@ type compiled struct {
 	constructs []string        // rewritten constructs in the pattern
 	fallback   []string        // constructs RE2 cannot express
 	quirk      map[string]*Prog
+	cls        classifyCache
 }
 
 // engineOf tells which implementation Compile returned, by its dynamic type.
@@ -280,44 +313,82 @@ func (c *compiled) quirkProg(q *quirkModel) *Prog {
 
 // classify names the root-cause shape of "ogen's RE2 verdict differs from the
 // agreed oracle verdict" on subject s.
-func (c *compiled) classify(s string, got, want bool) string {
-	var applicable []*quirkModel
+type classifyCache struct {
+	done       bool
+	applicable []*quirkModel
+	combined   *Prog            // all applicable models together
+	repaired   ogenregex.Regexp // the pattern with '[' class members escaped, compiled by ogen on RE2
+	// … or that repaired pattern does not compile on RE2 at all
+	repairedLeavesRE2 bool
+}
+
+func (c *compiled) prepareClassify() *classifyCache {
+	cc := &c.cls
+	if cc.done {
+		return cc
+	}
+	cc.done = true
 	for i := range quirks {
-		q := &quirks[i]
-		if !q.applies(c) {
-			continue
+		if q := &quirks[i]; q.applies(c) {
+			cc.applicable = append(cc.applicable, q)
 		}
-		applicable = append(applicable, q)
+	}
+	if len(cc.applicable) > 0 {
+		ast := c.ast
+		for _, q := range cc.applicable {
+			ast = q.transform(ast)
+		}
+		if p, err := CompileRef(ast); err == nil {
+			cc.combined = p
+		}
+	}
+	if HasPosixLookalike(c.ast) {
+		if pat, err := Print(escapeClassBrackets(c.ast)); err == nil {
+			if re, err := ogenregex.Compile(pat); err == nil && engineOf(re) == engineRE2 {
+				cc.repaired = re
+			} else {
+				// with the bracket escaped RE2 refuses the pattern (e.g. a bound
+				// above 1000 that the run-on class had swallowed): the pattern is on
+				// RE2 only because of the lookalike
+				cc.repairedLeavesRE2 = true
+			}
+		}
+	}
+	return cc
+}
+
+// explain attributes "ogen's RE2 verdict got differs from the ECMA-262 verdict
+// want on subject s" to one of the modelled root causes, or returns "".
+func (c *compiled) explain(s string, got, want bool) string {
+	cc := c.prepareClassify()
+	for _, q := range cc.applicable {
 		if p := c.quirkProg(q); p != nil && p.Match(s) == got {
 			return q.classifier
 		}
 	}
-	var combined *Prog
-	if len(applicable) > 0 {
-		// several classified constructs in one pattern: the verdict is attributed
-		// to the first of them iff all the models together reproduce it
-		ast := c.ast
-		for _, q := range applicable {
-			ast = q.transform(ast)
-		}
-		if p, err := CompileRef(ast); err == nil {
-			combined = p
-			if len(applicable) > 1 && p.Match(s) == got {
-				return applicable[0].classifier
-			}
-		}
+	// several classified constructs in one pattern: the verdict is attributed to
+	// the first of them iff all the models together reproduce it
+	if len(cc.applicable) > 1 && cc.combined != nil && cc.combined.Match(s) == got {
+		return cc.applicable[0].classifier
 	}
-	if HasPosixLookalike(c.ast) {
+	if cc.repaired != nil {
 		// counterfactual: with the '[' members escaped (\[), which is all a
 		// converter would have to do, is the verdict the expected one (or the one
 		// the other models predict)?
-		if pat, err := Print(escapeClassBrackets(c.ast)); err == nil {
-			if re, err := ogenregex.Compile(pat); err == nil && engineOf(re) == engineRE2 {
-				if g2, err := re.MatchString(s); err == nil && (g2 == want || combined != nil && g2 == combined.Match(s)) {
-					return "class-posix-lookalike-unescaped"
-				}
-			}
+		if g2, err := cc.repaired.MatchString(s); err == nil && (g2 == want || cc.combined != nil && g2 == cc.combined.Match(s)) {
+			return "class-posix-lookalike-unescaped"
 		}
+	}
+	if cc.repairedLeavesRE2 {
+		return "class-posix-lookalike-unescaped"
+	}
+	return ""
+}
+
+// classify names the root-cause shape of a disagreement.
+func (c *compiled) classify(s string, got, want bool) string {
+	if k := c.explain(s, got, want); k != "" {
+		return k
 	}
 	if len(c.constructs) == 0 {
 		return "re2-verdict-differs-plain"
@@ -418,9 +489,10 @@ type patCase struct {
 }
 
 type caseStats struct {
-	pairs, agree, undecided, notCompared, r2Deviates, errors int
-	sawMatch, sawNonMatch                                    bool
-	conflicts                                                []string
+	pairs, agree, undecided, undecidedExplained, notCompared, r2Deviates, errors int
+	undecidedSamples                                                             []string
+	sawMatch, sawNonMatch                                                        bool
+	conflicts                                                                    []string
 }
 
 // checkCase is the oracle: first finding of the case, plus statistics.
@@ -460,6 +532,11 @@ func checkCase(c patCase, tab *v8Table) (*vk.Finding, *compiled, string, caseSta
 			st.agree++
 		case oUndecided:
 			st.undecided++
+			if k := cp.explain(s, r.got, r.want); k != "" {
+				st.undecidedExplained++
+			} else if len(st.undecidedSamples) < 3 {
+				st.undecidedSamples = append(st.undecidedSamples, fmt.Sprintf("pattern %q subject %q: ogen=%v reference=%v", cp.pat, s, r.got, r.want))
+			}
 		case oAlarm:
 			if first == nil {
 				first = cp.alarm(s, r)
@@ -733,7 +810,7 @@ func runPattern(u *vk.Unit, ast *Node, subjects []string, tab *v8Table, tl *tall
 	}
 	var sawMatch, sawNon bool
 	seen := map[string]bool{}
-	pairs, undecided, dev, byTable := 0, 0, 0, 0
+	pairs, undecided, explained, dev, byTable := 0, 0, 0, 0, 0
 	for _, s := range subjects {
 		v8 := tab.lookup(cp.pat, s)
 		r := cp.judge(s, v8)
@@ -747,6 +824,11 @@ func runPattern(u *vk.Unit, ast *Node, subjects []string, tab *v8Table, tl *tall
 			continue
 		case oUndecided:
 			undecided++
+			if k := cp.explain(s, r.got, r.want); k != "" {
+				explained++
+			} else {
+				noteUndecided(u, fmt.Sprintf("pattern %q subject %q: ogen=%v reference=%v", cp.pat, s, r.got, r.want))
+			}
 		case oAlarm:
 			f := cp.alarm(s, r)
 			if !seen[f.Classifier] {
@@ -771,6 +853,8 @@ func runPattern(u *vk.Unit, ast *Node, subjects []string, tab *v8Table, tl *tall
 	u.Eval(pairs - 1)
 	tl.add("pairs", pairs)
 	tl.add("pairs:undecided(ogen differs from the reference; regexp2 sides with ogen or rejects the pattern; no V8 verdict)", undecided)
+	tl.add("pairs:undecided,of-which-reproduced-by-a-known-defect-model", explained)
+	tl.add("pairs:undecided,UNEXPLAINED", undecided-explained)
 	tl.add("pairs:regexp2-deviates-from-reference", dev)
 	tl.add("pairs:regexp2-deviates,covered-by-V8-table", byTable)
 	if len(cp.constructs) > 0 && sawMatch && sawNon {
@@ -779,6 +863,23 @@ func runPattern(u *vk.Unit, ast *Node, subjects []string, tab *v8Table, tl *tall
 		if hashStr(cp.pat)%97 == 0 {
 			u.Sample(map[string]any{"pattern": cp.pat, "constructs": cp.constructs, "subjects": len(subjects)})
 		}
+	}
+}
+
+var (
+	undecidedMu    sync.Mutex
+	undecidedNoted = map[*vk.Unit]int{}
+)
+
+// noteUndecided keeps a few examples of pairs on which ogen differs from the
+// reference matcher but no second oracle confirms it (evidence notes).
+func noteUndecided(u *vk.Unit, what string) {
+	undecidedMu.Lock()
+	n := undecidedNoted[u]
+	undecidedNoted[u] = n + 1
+	undecidedMu.Unlock()
+	if n < 5 {
+		u.Note("undecided, not reproduced by any known-defect model: %s", what)
 	}
 }
 
@@ -1008,6 +1109,11 @@ func evalCase(u *vk.Unit, t *testing.T, c patCase, tab *v8Table) *vk.Finding {
 	}
 	u.LabelN("pairs", st.pairs)
 	u.LabelN("pairs:undecided(ogen differs from the reference; regexp2 sides with ogen or rejects the pattern; no V8 verdict)", st.undecided)
+	u.LabelN("pairs:undecided,of-which-reproduced-by-a-known-defect-model", st.undecidedExplained)
+	u.LabelN("pairs:undecided,UNEXPLAINED", st.undecided-st.undecidedExplained)
+	for _, smp := range st.undecidedSamples {
+		noteUndecided(u, smp)
+	}
 	u.LabelN("pairs:regexp2-deviates-from-reference", st.r2Deviates)
 	u.LabelN("pairs:match-error", st.errors)
 	if nonTrivial(cp, st) {
